@@ -144,7 +144,8 @@ fn run_grstate_case(l: &[Val]) -> Val {
 
 // ------------------------------------------------- C11: deferral slice of the RIB
 // ops: [0,f] start_deferral | [1,f,net,peer,pid,filtered] insert | [2,f] end_deferral
-//      | [3,f,net,peer,pid] remove | [4,f,peer] drop
+//      | [3,f,net,peer,pid] remove | [4,f,peer] drop | [5,f,peer] restale | [6,f,peer] drop_stale
+//      | [7,nh,reachable] update_nexthop_validity     (insert is [1,f,net,peer,pid,filtered,nh,nhinv])
 // public API of rustybgp-table only; every insert carries a fresh attribute block.
 fn tab_net(n: u32) -> rustybgp_packet::Nlri {
     rustybgp_packet::Nlri::V4(rustybgp_packet::bgp::Ipv4Net {
@@ -197,13 +198,51 @@ fn changes_val(ch: &[rustybgp_table::NlriChange]) -> Val {
     v.sort();
     Val::L(v.into_iter().map(|(a, b)| Val::L(vec![Val::I(a), Val::I(b)])).collect())
 }
+fn tab_nh(n: u8) -> Option<rustybgp_packet::bgp::Nexthop> {
+    if n == 0 {
+        None
+    } else {
+        Some(rustybgp_packet::bgp::Nexthop::V4(std::net::Ipv4Addr::new(10, 9, 9, n)))
+    }
+}
 fn run_tab_case(l: &[Val]) -> Val {
     let mut t = rustybgp_table::Table::new(0);
-    let mut srcs: FnvHashMap<u8, std::sync::Arc<rustybgp_table::Source>> = FnvHashMap::default();
+    // one Source per (peer, family), as the daemon has; replaced by a new one after a restale, as a new
+    // session's would be
+    let mut srcs: FnvHashMap<(u8, u32), std::sync::Arc<rustybgp_table::Source>> = FnvHashMap::default();
     let mut obs = Vec::new();
     for op in l[1].list() {
         let o = op.list();
+        if o[0].int() == 7 {
+            // update_nexthop_validity: every family
+            let ch = t.update_nexthop_validity(
+                IpAddr::V4(std::net::Ipv4Addr::new(10, 9, 9, o[1].u8())),
+                o[2].bool(),
+            );
+            let mut v: Vec<(i128, i128, i128)> = ch
+                .iter()
+                .map(|c| {
+                    (
+                        (((c.family.afi() as u32) << 16) | c.family.safi() as u32) as i128,
+                        tab_net_val(&c.net).int(),
+                        c.current_paths.len() as i128,
+                    )
+                })
+                .collect();
+            v.sort();
+            obs.push(Val::L(vec![
+                Val::L(vec![
+                    Val::n(3u8),
+                    Val::L(v.into_iter()
+                        .map(|(a, b, c)| Val::L(vec![Val::I(a), Val::I(b), Val::I(c)]))
+                        .collect()),
+                ]),
+                Val::b(false),
+            ]));
+            continue;
+        }
         let f = fam_of(&o[1]);
+        let fcode = o[1].u32();
         let res = match o[0].int() {
             0 => {
                 t.start_deferral(f);
@@ -211,17 +250,17 @@ fn run_tab_case(l: &[Val]) -> Val {
             }
             1 => {
                 let peer = o[3].u8();
-                let src = srcs.entry(peer).or_insert_with(|| tab_source(peer)).clone();
+                let src = srcs.entry((peer, fcode)).or_insert_with(|| tab_source(peer)).clone();
                 let r = t.insert(
                     src,
                     f,
                     tab_net(o[2].u32()),
                     o[4].u32(),
-                    None,
+                    tab_nh(o[6].u8()),
                     std::sync::Arc::new(Vec::new()),
                     None,
                     o[5].bool(),
-                    false,
+                    o[7].bool(),
                     None,
                     0,
                 );
@@ -236,19 +275,13 @@ fn run_tab_case(l: &[Val]) -> Val {
                 }
             }
             2 => {
-                // end_deferral reports every destination; a change with an empty path
-                // list is a withdrawal, not an announcement, and is not part of the
-                // "held prefixes announced" observation of the deferral slice model
-                let ch: Vec<_> = t
-                    .end_deferral(f)
-                    .into_iter()
-                    .filter(|c| !c.current_paths.is_empty())
-                    .collect();
+                // every destination of the family is reported, also one without an eligible path
+                let ch = t.end_deferral(f);
                 Val::L(vec![Val::n(2u8), changes_val(&ch)])
             }
             3 => {
                 let peer = o[3].u8();
-                let src = srcs.entry(peer).or_insert_with(|| tab_source(peer)).clone();
+                let src = srcs.entry((peer, fcode)).or_insert_with(|| tab_source(peer)).clone();
                 let (ch, _) = t.remove(src, f, tab_net(o[2].u32()), o[4].u32(), None);
                 match ch {
                     None => Val::L(vec![Val::n(0u8)]),
@@ -261,6 +294,17 @@ fn run_tab_case(l: &[Val]) -> Val {
             }
             4 => {
                 let (ch, _) = t.drop(IpAddr::V4(std::net::Ipv4Addr::new(10, 0, 0, o[2].u8())), f);
+                Val::L(vec![Val::n(2u8), changes_val(&ch)])
+            }
+            5 => {
+                let peer = o[2].u8();
+                let ch = t.restale(IpAddr::V4(std::net::Ipv4Addr::new(10, 0, 0, peer)), f);
+                srcs.remove(&(peer, fcode));
+                Val::L(vec![Val::n(2u8), changes_val(&ch)])
+            }
+            6 => {
+                let (ch, _) =
+                    t.drop_stale(IpAddr::V4(std::net::Ipv4Addr::new(10, 0, 0, o[2].u8())), f, None);
                 Val::L(vec![Val::n(2u8), changes_val(&ch)])
             }
             x => panic!("verif: bad table op {}", x),
